@@ -358,6 +358,70 @@ Fixpoint to_chain (q : request) (ca : list authn) (hits : list lookup) : list ca
 Definition authenticate (ca : list authn) (hits : list lookup) (q : request) : nat * result :=
   execute (to_chain q ca hits).
 
+(* ------------------------------------------------------------------ the rule factory: instances by address *)
+
+(** an authenticator object: its type with everything configured, and its field allowFallbackOnError *)
+Record obj := { o_type : atype; o_flag : bool }.
+
+(** IsFallbackOnErrorAllowed() of an object *)
+Definition obj_fallback (o : obj) : bool :=
+  match o_type o with TAnonymous _ | TUnauthorized => false | _ => o_flag o end.
+
+(** the objects that exist, by address; the prototypes of the mechanism catalogue come first *)
+Definition heap := list obj.
+
+(** a step of a rule: the prototype it names and its `config` — absent/empty, or
+    present: the type the settings result in, and allow_fallback_on_error if it is among them *)
+Record stepcfg := { sc_proto : nat; sc_config : option (atype * option bool) }.
+
+(** WithConfig of the object at address [p]: without a config the object itself
+    (shared by every rule that names it so); unauthorized ignores the config;
+    otherwise a NEW object that takes the prototype's flag unless the config sets
+    it.  No object is ever modified.  [None]: no such mechanism (an error of CreateRule). *)
+Definition with_config (h : heap) (p : nat) (cfg : option (atype * option bool)) : option (heap * nat) :=
+  match nth_error h p with
+  | None => None
+  | Some o =>
+    match cfg with
+    | None => Some (h, p)
+    | Some (t', ov) =>
+      match o_type o with
+      | TUnauthorized => Some (h, p)
+      | _ => Some (h ++ [{| o_type := t'; o_flag := match ov with Some b => b | None => o_flag o end |}], length h)
+      end
+    end
+  end.
+
+(** createExecutePipeline: the addresses of a rule's authenticators, in the order of its steps *)
+Fixpoint create_rule (h : heap) (steps : list stepcfg) : option (heap * list nat) :=
+  match steps with
+  | [] => Some (h, [])
+  | s :: rest =>
+    match with_config h (sc_proto s) (sc_config s) with
+    | None => None
+    | Some (h1, a) =>
+      match create_rule h1 rest with
+      | None => None
+      | Some (h2, l) => Some (h2, a :: l)
+      end
+    end
+  end.
+
+(** a history: rules created one after the other by one factory *)
+Fixpoint load (h : heap) (rules : list (list stepcfg)) : option (heap * list (list nat)) :=
+  match rules with
+  | [] => Some (h, [])
+  | r :: rest =>
+    match create_rule h r with
+    | None => None
+    | Some (h1, l) =>
+      match load h1 rest with
+      | None => None
+      | Some (h2, ls) => Some (h2, l :: ls)
+      end
+    end
+  end.
+
 (* ------------------------------------------------------------------ decidable equalities for the evaluator *)
 
 Definition okind_eqb (a b : okind) : bool :=
